@@ -17,5 +17,8 @@ import FlodymProofs.Props.C17Failing
 #print axioms Flodym.C17.computeE_of_inv
 #print axioms Flodym.C17.computeE_eq_fresh
 #print axioms Flodym.C17.stepE_total
+#print axioms Flodym.C17.failed_setPrms_changes_nothing
+#print axioms Flodym.C17.source_set_prms_atomic
+#print axioms Flodym.C17.partial_set_prms_counterexample
 #print axioms Flodym.C17.source_failed_build_discarded
 #print axioms Flodym.C17.kept_failed_build_counterexample
